@@ -6,8 +6,10 @@ spellings of a schema reach the rest of the generator as the same thing.
 * `normalise`      `JsonSchemaObject.validate_exclusive_maximum_and_exclusive_minimum` (a `before`
                    validator on the raw keyword dict): draft-4 boolean `exclusiveMaximum/Minimum`
                    are rewritten into the draft-6 numeric form
-* `pickContainer`  the loop over `SCHEMA_PATHS` in `_parse_file`: the first container of named
-                   schemas that is present and non-empty is the one that is walked
+* `walkContainers` the loop over `SCHEMA_PATHS` in `_parse_file`: EVERY container of named schemas
+                   that is present is walked, in `SCHEMA_PATHS` order, each entry under the path of
+                   its own container
+* `walkNamed` / `walkDoc`  what the walk does with the entries (every one is handed to `parse_raw_obj`)
 -/
 namespace Dcg.Model.Bounds
 
@@ -66,18 +68,25 @@ def draft6 (lo hi : Side α) : Rec α :=
     exclusiveMinimum := lo.bind (fun s => if s.2 then some (.num s.1) else none),
     exclusiveMaximum := hi.bind (fun s => if s.2 then some (.num s.1) else none) }
 
-/-- `for _schema_path, split in self.schema_paths: definitions = get_model_by_path(raw, split);
-if definitions: break` — `containers` are the root keys that hold named schemas (a missing key and an
-empty container behave alike: `schema.get(key, {})` is falsy). -/
-def pickContainer {β : Type} (containers : List (String × List β)) : List String → List β
+/-- `definitions = []; for schema_path, split in self.schema_paths: found = get_model_by_path(raw, split);
+if found: definitions.extend((schema_path, key, model) for key, model in found.items())` — the list of
+`(schema_path, entry)` that the two later loops (`parse_id`, then `parse_raw_obj` under the path
+`[*path_parts, schema_path, key]`) run over. `containers` are the root keys of the document that hold named
+schemas, with their entries in document order (a missing key and an empty container behave alike:
+`schema.get(key, {})` is falsy and contributes nothing); `paths` is `schema_paths`: the pointer of a container
+(`#/definitions`) and the root key it is looked up under (`definitions`). -/
+def walkContainers {β : Type} (containers : List (String × List β)) : List (String × String) → List (String × β)
   | [] => []
-  | p :: ps => match containers.lookup p with
-    | some (e :: es) => e :: es
-    | _ => pickContainer containers ps
+  | (path, key) :: ps =>
+    (match containers.lookup key with
+      | some es => es.map (fun e => (path, e))
+      | none => []) ++ walkContainers containers ps
 
-/-- the root keys the JSON-Schema walk looks at, in order, from the generated `schema_paths` table -/
-def containerKeys : List String :=
-  Dcg.Gen.Formats.jsonSchemaPathsSplit.filterMap (fun p => match p with | [k] => some k | _ => none)
+/-- `JsonSchemaParser.schema_paths` from the generated tables: `(s, s.lstrip("#/").split("/"))` for every `s` of
+`SCHEMA_PATHS`, in order; the containers of JSON Schema sit directly below the document root (one key) -/
+def containerPaths : List (String × String) :=
+  (Dcg.Gen.Formats.jsonSchemaPaths.zip Dcg.Gen.Formats.jsonSchemaPathsSplit).filterMap
+    (fun p => match p.2 with | [k] => some (p.1, k) | _ => none)
 
 /-- what the body of a named schema looks like to the walk (nothing else about it matters there) -/
 inductive Body where
@@ -93,5 +102,17 @@ every entry is handed to `parse_raw_obj`, WHATEVER its body is — in particular
 other; a body that is not a mapping aborts the run. Result: the names that become top-level definitions, in order. -/
 def walkNamed (entries : List (String × Body)) : Option (List String) :=
   if entries.any (fun e => e.2 == .notAMapping) then none else some (entries.map (·.1))
+
+/-- the whole walk of a JSON-Schema document: the entries of all its containers (`walkContainers`), every one handed
+to `parse_raw_obj` under `[schema_path, key]`. Result: the registry paths `(schema_path, key)` that become top-level
+definitions, in order — the SAME key in two containers is two entries under two different paths, parsed separately
+(two `Reference`s; `ModelResolver.add(…, unique=True)` gives the second class the suffixed name `X1`, see C06
+`names_distinct_after_unique_adds`; only `Parser.__delete_duplicate_models` may merge them afterwards, and only when
+their content is identical, C06 `dedupe_only_identical`). `none` = a body that is not a mapping, in whichever container:
+the first loop (`SCHEMA_OBJECT_TYPE.parse_obj(model)` for every entry of every container) aborts the run. -/
+def walkDoc (containers : List (String × List (String × Body))) (paths : List (String × String)) :
+    Option (List (String × String)) :=
+  let ws := walkContainers containers paths
+  if ws.any (fun w => w.2.2 == .notAMapping) then none else some (ws.map (fun w => (w.1, w.2.1)))
 
 end Dcg.Model.Bounds
